@@ -412,8 +412,9 @@ class EvolvableMultiInput(EvolvableModule):
         # Extract features from non-vector subspaces
         extracted_features = OrderedDict()
         if self.extracted_features_dim > 0:
-            for key in x.keys():
-                if key in self.feature_net.keys():
+            # In the order of the observation space, whatever the key order of the observation
+            for key in self.feature_net.keys():
+                if key in x.keys():
                     extracted_features[key] = self.feature_net[key](x[key])
 
         # Extract raw features from vector spaces
